@@ -250,6 +250,72 @@ class _Ctx(object):
         return False
 
 
+DRESSES = ['subclass', 'enum_member', 'other_number', 'other_buffer',
+           'tuple']
+
+
+def dress(spec, v, how):
+    """The same value as an object of another Python type that IS (a
+    subclass of) the documented type or the number the field stands for:
+    a str subclass / str-mixin enum member whose str() and repr() say
+    something else, an IntEnum member or bool, an int for a float field, a
+    bytearray or bytes subclass, a tuple for a list.  Returns None when the
+    dress does not apply to this type/value."""
+    import enum
+    n = spec_name(spec)
+    if n == 'PrefixedArray':
+        if how == 'tuple':
+            return tuple(v)
+        inner = [dress(spec[2], e, how) for e in v]
+        if not v or any(e is None for e in inner):
+            return None
+        return inner
+    if n == 'String':
+        if how == 'subclass':
+            class Text(str):
+                def __str__(self):
+                    return 'Text object'
+                __repr__ = __str__
+            return Text(v)
+        if how == 'enum_member':
+            return enum.Enum('Channel', [('BRAND', v)], type=str).BRAND
+        return None
+    if n in INT_RANGES or n in ('VarInt', 'VarLong'):
+        if isinstance(v, bool) or not isinstance(v, int):
+            return None
+        if how == 'enum_member':
+            return enum.IntEnum('Code', [('VALUE', v)]).VALUE
+        if how == 'subclass':
+            class Count(int):
+                def __str__(self):
+                    return 'Count object'
+                __repr__ = __str__
+            return Count(v)
+        if how == 'other_number' and v in (0, 1):
+            return bool(v)
+        return None
+    if n in ('Float', 'Double'):
+        if how == 'other_number' and isinstance(v, float) and \
+                v == int(v if abs(v) < 2 ** 60 and v == v else 0.5) and \
+                (v != 0 or str(v) == '0.0'):
+            return int(v)
+        return None
+    if n == 'Boolean':
+        return int(v) if how == 'other_number' else None
+    if n in ('VarIntPrefixedByteArray', 'ShortPrefixedByteArray',
+             'TrailingByteArray'):
+        if how == 'other_buffer':
+            return bytearray(v)
+        if how == 'subclass':
+            class Blob(bytes):
+                def __str__(self):
+                    return 'Blob object'
+                __repr__ = __str__
+            return Blob(v)
+        return None
+    return None
+
+
 def _send(T, mode, v, sink):
     import inspect
     if mode == 'plain':
@@ -297,11 +363,18 @@ def value_case(ctx, case):
 
     # E1/E2
     sink = Sink()
+    v_sent = v
+    if case.get('dress'):
+        v_sent = dress(spec, v, case['dress'])
+        if v_sent is None:
+            return
+        ctx.label('dressed_' + case['dress'])
     try:
         if case.get('traced'):
-            run_with_line_budget(lambda: _send(T, mode, v, sink), LINE_BUDGET)
+            run_with_line_budget(lambda: _send(T, mode, v_sent, sink),
+                                 LINE_BUDGET)
         else:
-            _send(T, mode, v, sink)
+            _send(T, mode, v_sent, sink)
     except BudgetExceeded:
         ctx.fail('value', 'E2-terminates', case, 'line budget exceeded')
         return
@@ -766,6 +839,12 @@ def t_boundaries(ctx):
                                  'traced': mode == 'plain' and
                                  not (isinstance(v, (str, bytes)) and
                                       len(v) > 2000)})
+            if isinstance(v, (str, bytes)) and len(v) > 2000:
+                continue
+            for k, how in enumerate(DRESSES):
+                value_case(ctx, {'spec': spec, 'value': v,
+                                 'mode': MODES[k % len(MODES)],
+                                 'dress': how})
     for carrier in ('Byte', 'Short', 'Integer'):
         lo, hi = INT_RANGES[carrier][:2]
         for fb in (0, 1, 5, 12, 15):
@@ -813,6 +892,9 @@ def t_boundaries(ctx):
                 if mode in ('plain', 'ctx_class'):
                     continue      # arrays are instances
                 value_case(ctx, {'spec': spec, 'value': v, 'mode': mode})
+                for how in DRESSES:
+                    value_case(ctx, {'spec': spec, 'value': v, 'mode': mode,
+                                     'dress': how})
     ctx.sample({'spec': A[4][0], 'value': A[4][1][2]}, 'value')
     ctx.exhaustive_done('boundary table (ints 2^k+-1, float specials, UTF-8 '
                         'width and length-prefix boundaries, nested arrays)')
